@@ -271,14 +271,32 @@ namespace Rfsm
 def C12_full : Prop :=
   Route.C12_route_full ∧ Interp.C12_cancel_full ∧ Interp.C12_content_full ∧ Expr.C11_full
 
-/-- the unchanged code violates C12: `5 % 0` panics (the session thread that evaluates it dies) -/
+/-- the code still violates C12 at the expression-engine level: `a == b` on two cyclic values
+blocks the session thread inside `DataArc::eq` (`Expr.C11_counterexample_equal_cyclic`).  The
+former witnesses — `5 % 0` and `abs(i64::MIN)` panicking, `a = a` / `a[a]` blocking, `x =`
+spinning — are repaired (`Expr.C11_regression_*`). -/
 theorem C12_counterexample : ¬ C12_full := fun h => Expr.C11_counterexample h.2.2.2
 #assert_axioms C12_counterexample
 
+/-- C12, expression-engine level, what holds: no evaluation panics, every text parses to an
+expression or a parse error (no livelock), and an evaluation ends with a value or an error unless
+it blocks inside `DataArc::eq` on cyclic operands (or the model's heap fuel runs out: tier B) -/
+def C12_expr_partial_stmt : Prop :=
+  (∀ (D : Type) (ops : Expr.DoubleOps D) (text : Expr.Str) (st : Expr.St D), st.held = [] →
+    (∀ s, (Expr.execute ops text st).2 ≠ .panic s) ∧
+    ((Expr.execute ops text st).2.isValueOrError = true ∨
+      (Expr.execute ops text st).2 = .deadlock .equal ∨ (Expr.execute ops text st).2 = .fuelOut)) ∧
+  (∀ text : Expr.Str, (∃ e, Expr.parse text = .ok e) ∨ (∃ e, Expr.parse text = .err e))
+
 /-- what is proved: no panic and exact error reporting at the `<send>` / event-I/O-processor
-level, and the cancel event is honoured in every state -/
-theorem C12_partial : Route.C12_route_full ∧ Interp.C12_cancel_full ∧ Interp.C12_content_full :=
-  ⟨Route.C12_route, Interp.C12_cancel, Interp.C12_content⟩
+level, the cancel event is honoured in every state, erroring content raises `error.execution`,
+and the expression engine neither panics nor spins.
+Missing for `C12_full`: `Expr.C11_full`, false because of `==` on cyclic values. -/
+theorem C12_partial :
+    Route.C12_route_full ∧ Interp.C12_cancel_full ∧ Interp.C12_content_full ∧ C12_expr_partial_stmt :=
+  ⟨Route.C12_route, Interp.C12_cancel, Interp.C12_content,
+   fun _ ops text st h => ⟨Expr.C11_execute_no_panic ops text st h, (Expr.C11_partial ops text st h).1⟩,
+   Expr.C11_parse_total⟩
 #assert_axioms C12_partial
 
 end Rfsm
